@@ -8,7 +8,7 @@
    particular that it never runs out. *)
 From Coq Require Import List Arith ZArith Bool Permutation.
 From GoGit Require Import Base.Out Spec.Dag Model.CommitWalk Model.LogWalk
-  Proofs.Worklist Proofs.C43 Proofs.C43Heap Proofs.C43Limit.
+  Proofs.Worklist Proofs.C43 Proofs.C43Heap Proofs.C43Limit Proofs.C43Bfs Proofs.C43HeapOrd.
 Import ListNotations.
 
 (* "every yielded commit except the start was discovered through a commit yielded before it" *)
@@ -45,6 +45,24 @@ Theorem C43_ctime_perm : forall g s, dag_ok g = true -> dag_closed g = true -> s
   exists l, ctime_walk g nostop (walk_fuel g) s [] = (l, WEof) /\ NoDup l /\ (forall x, In x l <-> reach g s x).
 Proof. exact ctime_perm. Qed.
 Print Assumptions C43_ctime_perm.
+
+(* LogOrderBSF is a level order: label the start 0 and every other commit 1 + the label of the
+   earlier-yielded commit whose parent list it was taken from; labels never decrease along the
+   output (for every graph, present or missing parents, any fuel) *)
+Theorem C43_bfs_level_order : forall g s fuel,
+  exists ll, fst (bfs_walk g nostop fuel s []) = map fst ll /\ level_ordered g s ll.
+Proof. exact bfs_level_order. Qed.
+Print Assumptions C43_bfs_level_order.
+
+(* LogOrderCommitterTime is NOT a sort by committer time; the contract it meets: every yielded commit
+   is at least as recent as every pending one — every not yet yielded (and not ignored) parent of
+   an earlier yielded commit.  Rests on the proof that the gods binary heap with go-git's
+   comparator is a max-heap on committer time (bubbleUp / bubbleDown restore the heap order). *)
+Theorem C43_ctime_newest_first : forall g stop (I : list node) (s : node) fuel,
+  (forall x : node, In x [s] -> x < nnodes g) -> dag_closed g = true ->
+  newest_first g I (fst (ctime_walk g stop fuel s I)).
+Proof. exact ctime_walk_newest_first. Qed.
+Print Assumptions C43_ctime_newest_first.
 
 (* LogOrderDFSPostFirstParent: exactly the first-parent chain, each commit once *)
 Theorem C43_first_parent_perm : forall g s, dag_closed g = true -> s < nnodes g ->
